@@ -290,8 +290,6 @@ impl<T> AtomicBucket<T> {
                             #[cfg(metrics_verif)]
                             metrics::verif::point("push.casfull.post", &[1, ptr.as_raw() as i64]);
                             let new_tail = unsafe { ptr.deref() };
-                            #[cfg(metrics_verif)]
-                            metrics::verif::point("push.link.pre", &[ptr.as_raw() as i64, tail.as_raw() as i64]);
                             new_tail.next.store(tail, Ordering::Release);
 
                             // Now push into our new block.
